@@ -495,3 +495,21 @@ V("C03", "lex-loop-no-step", "fire", ("codelimit/common/lexer_utils.py", "      
   "lexing wrapper hangs on the second line", "lex/while")
 V("C03", "scope-tokens-no-pop", "fire", (SU, "            children_token_ranges.pop(0)\n", "            pass\n"), "hangs after the first nested function", "_scope_tokens/while")
 V("C03", "unfold-self", "fire", (SU, "        result.extend(unfold_scopes(scope.children))", "        result.extend(unfold_scopes([scope]))"), "infinite recursion", "unfold_scopes")
+
+# ------------------------------------------------------------------ C07
+COB = "codelimit/common/Codebase.py"
+STT = "codelimit/common/ScanTotals.py"
+V("C07", "loc-counts-functions", "fire", (LT, "        self.loc += entry.loc\n", "        self.loc += len(entry.measurements())\n"), "language LOC counts functions", "LanguageTotals.add/loc")
+V("C07", "functions-plus-one", "fire", (LT, "        self.functions += len(entry.measurements())\n", "        self.functions += 1\n"), "one function per file", "LanguageTotals.add/functions")
+V("C07", "total-loc-sums-functions", "fire", (STT, "return sum([language.loc for language in self._languages_totals.values()])", "return sum([language.functions for language in self._languages_totals.values()])"),
+  "grand total of the wrong field", "ScanTotals.total_loc")
+V("C07", "merge-profiles-slip", "fire", (U, "rc1[2] + rc2[2], rc1[3] + rc2[3]]", "rc1[2] + rc2[2], rc1[3] + rc2[2]]"), "last position merged from the wrong cell", "merge_profiles")
+V("C07", "merge-profiles-zip-silent", "silent", (U, "    return [rc1[0] + rc2[0], rc1[1] + rc2[1], rc1[2] + rc2[2], rc1[3] + rc2[3]]", "    return [x + y for x, y in zip(rc1, rc2)]"), "same merge")
+V("C07", "folder-listed-always", "fire", (COB, "            self.tree[f\"{path}/\"] = SourceFolder()\n            self.add_folder(get_parent_folder(path))\n            parent_folder = self.tree[f\"{get_parent_folder(path)}/\"]\n            parent_folder.add_folder(get_basename(path))",
+                                           "            self.tree[f\"{path}/\"] = SourceFolder()\n            self.add_folder(get_parent_folder(path))\n        if True:\n            parent_folder = self.tree[f\"{get_parent_folder(path)}/\"]\n            parent_folder.add_folder(get_basename(path))"),
+  "a folder is listed again for every file added below it", "add_folder/once")
+V("C07", "totals-recreated", "fire", (COB, "        if entry.language not in self.totals:\n            self.totals[entry.language] = LanguageTotals(entry.language)", "        self.totals[entry.language] = LanguageTotals(entry.language)"),
+  "totals reset for every file", "add_file/totals-creation")
+V("C07", "aggregate-twice", "fire", (SCANCMD, "    codebase.aggregate()\n", "    codebase.aggregate()\n    codebase.aggregate()\n"), "profiles doubled", "aggregate-twice")
+V("C07", "reader-no-aggregate", "fire", (RR, "        codebase.aggregate()\n", ""), "re-read report has empty folder profiles", "no-aggregate")
+V("C07", "file-loc-len", "fire", (SCN, "    file_loc = sum([m.value for m in measurements])", "    file_loc = len(measurements)"), "file total is the number of functions", "_analyze_file/loc")
